@@ -12,6 +12,7 @@ EXPLANATION = (
     "true edge returns Err(ShutdownEvent) with no call in between; kill_fd is the kill switch's "
     "as_raw_fd() or -1; nothing in the crate reads (and thereby resets) the eventfd; add_kill_switch "
     "registers the descriptor with epoll_add and stores it; the kill_switch field is read only by requests(). "
+    "The error exits of requests() before the test are environment-only, the Overflow exit being out of reach while the in-flight counter is at least 32 bits wide. "
     "Decides these clauses; that the kernel reports the eventfd in every batch is trusted."
 )
 TRUSTED = ["level-triggered epoll keeps reporting a readable eventfd", "Epoll::wait fills at most events.len() entries"]
